@@ -32,6 +32,7 @@ Theorem C02_sound :
   key_sound C -> f_respects C -> uniform C ->
   forall h, Forall (call_sound C) (run C init h) /\ Forall (get_sound C) (run C init h).
 Proof. intros ? ? ? ? ? ? ? C Hd Hs KS FR UN h. exact (sound_uniform C Hd Hs KS FR UN h). Qed.
+Print Assumptions C02_sound.
 
 (* key_sound cannot be dropped: any counterexample to it (two accepted calls with one digest whose
    values differ) makes the second of two calls return the value of the first. *)
@@ -45,6 +46,7 @@ Theorem C02_key_sound_necessary :
   f C (code C 0) b1 <> f C (code C 0) b2 ->
   exists v, nth_error (outcomes C (two_calls c1 c2)) 3 = Some (OHit v) /\ v <> f C (code C 0) b2.
 Proof. intros ? ? ? ? ? ? ? C Hd Hs. apply key_sound_necessary; assumption. Qed.
+Print Assumptions C02_key_sound_necessary.
 
 (* Full statement "C02_sound without key_sound" is FALSE of the unchanged tree (findings F1, F2):
    with the key classes that the real _get_args_id produces for
@@ -61,11 +63,13 @@ Proof.
   intros KS. specialize (KS f1_c1 f1_c2 0 0 (0, 0) (1, 1) eq_refl eq_refl eq_refl eq_refl eq_refl).
   discriminate.
 Qed.
+Print Assumptions C02_sound_refuted_F1.
 
 Theorem C02_sound_refuted_F2 :
   outcomes one_cfg (two_calls f2_c1 f2_c2) = [ODone; ODone; OMiss (0, 0); OHit (0, 0)] /\
   bind_spec one_cfg f2_c2 = Some (1, 1) /\ f one_cfg (code one_cfg 0) (1, 1) = (0, 1).
 Proof. split; [vm_compute; reflexivity|]. split; reflexivity. Qed.
+Print Assumptions C02_sound_refuted_F2.
 
 (* non-vacuity: all hypotheses of C02_sound hold together on ideal_cfg (key = binding class outside
    the ignore list, a function that ignores what it asked to ignore, one source text), and the
@@ -83,3 +87,4 @@ Proof.
   split; [intros s b1 b2 H; cbn in *; congruence|]. split; [intros k k'; reflexivity|].
   vm_compute. reflexivity.
 Qed.
+Print Assumptions C02_hypotheses_satisfiable.
